@@ -52,7 +52,7 @@ func selftest(id string, pc *PropConfig, kf *KFFile, seed int) int {
 		res := runProperty(id, pc, "/repo", map[string][]byte{full: []byte(mut)}, kf.Findings, 10*time.Second, false, seed, smtDir)
 		outcome := "pass"
 		detail := ""
-		if len(res.Errors) > 0 || len(res.Missing) > 0 {
+		if len(res.Errors) > 0 {
 			outcome = "engine-error"
 			if len(res.Errors) > 0 {
 				detail = res.Errors[0]
@@ -147,7 +147,7 @@ func quickCanary(id string, pc *PropConfig, kf *KFFile, seed int) int {
 		os.MkdirAll(smtDir, 0o755)
 		res := runProperty(id, pc, "/repo", map[string][]byte{full: []byte(mut)}, kf.Findings, 10*time.Second, false, seed, smtDir)
 		os.RemoveAll(smtDir)
-		if len(res.Errors) > 0 || len(res.Missing) > 0 {
+		if len(res.Errors) > 0 {
 			fmt.Printf("canary %s: engine error on the mutated tree (not counted)\n", m.Name)
 			return 0
 		}
